@@ -251,7 +251,7 @@ func rapidHistory(t *rapid.T, prop string, cfg world.Cfg, weights map[string]int
 }
 
 func rapidHistoryOpts(t *rapid.T, prop string, cfg world.Cfg, weights map[string]int, universe []string, orc oracle, avoid func(hist.Step, *hist.MRunner) string, opts world.Opts) {
-	g := hist.NewGen(t, weights, universe, 4, cfg.RecordSize)
+	g := hist.NewGen(t, weights, universe, 4, cfg.RecordSize).WithSuffixNames(t, cfg)
 	if guard("F-33") && cfg.Compression == "parallelbzip2" && cfg.Encryption == "pgp" {
 		g.MaxSize = 90000 // finding F-33: larger contents cannot be read back
 		live.S.Exclude("F-33")
